@@ -48,6 +48,9 @@ pub enum Op {
     ClearComments { sheet: usize },
     SetMacros { on: bool },
     EditComment { sheet: usize, nth: usize, text: String },
+    RowStyle { sheet: usize, row: u32, k: u8 },
+    ColStyle { sheet: usize, col: u32, k: u8 },
+    Image { sheet: usize, cell: String, name: String, blue: bool },
 }
 
 impl Op {
@@ -88,6 +91,9 @@ impl Op {
             Op::ClearComments { .. } => "clear_comments",
             Op::SetMacros { .. } => "set_macros",
             Op::EditComment { .. } => "edit_comment",
+            Op::RowStyle { .. } => "row_style",
+            Op::ColStyle { .. } => "col_style",
+            Op::Image { .. } => "image",
         }
     }
 }
@@ -99,6 +105,9 @@ fn sheet_mut(book: &mut Spreadsheet, sheet: usize) -> Option<&mut umya::Workshee
     }
     book.get_sheet_mut(&(sheet % n))
 }
+
+pub const PNG_RED: [u8; 69] = [137, 80, 78, 71, 13, 10, 26, 10, 0, 0, 0, 13, 73, 72, 68, 82, 0, 0, 0, 1, 0, 0, 0, 1, 8, 2, 0, 0, 0, 144, 119, 83, 222, 0, 0, 0, 12, 73, 68, 65, 84, 120, 156, 99, 248, 207, 192, 0, 0, 3, 1, 1, 0, 201, 254, 146, 239, 0, 0, 0, 0, 73, 69, 78, 68, 174, 66, 96, 130];
+pub const PNG_BLUE: [u8; 69] = [137, 80, 78, 71, 13, 10, 26, 10, 0, 0, 0, 13, 73, 72, 68, 82, 0, 0, 0, 1, 0, 0, 0, 1, 8, 2, 0, 0, 0, 144, 119, 83, 222, 0, 0, 0, 12, 73, 68, 65, 84, 120, 156, 99, 96, 96, 248, 15, 0, 1, 3, 1, 0, 8, 137, 194, 236, 0, 0, 0, 0, 73, 69, 78, 68, 174, 66, 96, 130];
 
 /// Apply one operation through the public API. Returns false if it was skipped.
 pub fn apply(book: &mut Spreadsheet, op: &Op) -> bool {
@@ -392,6 +401,42 @@ pub fn apply(book: &mut Spreadsheet, op: &Op) -> bool {
             c.set_text(rt);
             s.add_comments(c);
         }),
+        Op::RowStyle { sheet, row, k } => sheet_mut(book, *sheet).map(|s| {
+            let st = s.get_row_dimension_mut(row).get_style_mut();
+            match k % 3 {
+                0 => {
+                    st.get_font_mut().set_bold(true);
+                }
+                1 => {
+                    st.set_background_color("FFDDEEFF");
+                }
+                _ => {
+                    st.get_number_format_mut().set_format_code("0.000");
+                }
+            }
+        }),
+        Op::ColStyle { sheet, col, k } => sheet_mut(book, *sheet).map(|s| {
+            let st = s.get_column_dimension_by_number_mut(col).get_style_mut();
+            match k % 3 {
+                0 => {
+                    st.get_font_mut().set_italic(true);
+                }
+                1 => {
+                    st.set_background_color("FFFFEEDD");
+                }
+                _ => {
+                    st.get_alignment_mut().set_horizontal(umya::HorizontalAlignmentValues::Right);
+                }
+            }
+        }),
+        Op::Image { sheet, cell, name, blue } => sheet_mut(book, *sheet).map(|s| {
+            let mut marker = umya::structs::drawing::spreadsheet::MarkerType::default();
+            marker.set_coordinate(cell.as_str());
+            let mut img = umya::structs::Image::default();
+            let bytes: Vec<u8> = if *blue { PNG_BLUE.to_vec() } else { PNG_RED.to_vec() };
+            img.new_image_with_dimensions(1, 1, name.as_str(), bytes, marker);
+            s.add_image(img);
+        }),
         Op::EditComment { sheet, nth, text } => sheet_mut(book, *sheet).and_then(|s| {
             let n = s.get_comments().len();
             if n == 0 {
@@ -518,7 +563,10 @@ pub fn gen_cell_op(rng: &mut Rng, cfg: &GenCfg, tag: &str) -> Op {
                 Op::SetBlank { sheet, cell }
             }
         }
-        6 => match rng.usize(7) {
+        6 => match rng.usize(10) {
+            7 => Op::RowStyle { sheet, row: 1 + rng.below(12) as u32, k: rng.below(3) as u8 },
+            8 => Op::ColStyle { sheet, col: 1 + rng.below(8) as u32, k: rng.below(3) as u8 },
+            9 => Op::Image { sheet, cell, name: ["logo.png", "logo.png", "pic 1.png", "é.png", "a&b.png"][rng.usize(5)].to_string(), blue: rng.chance(1, 2) },
             3 | 4 => Op::Format { sheet, cell, k: rng.below(16) as u8 },
             5 => Op::HideRow { sheet, row: 1 + rng.below(12) as u32 },
             6 => Op::HideCol { sheet, col: 1 + rng.below(8) as u32 },
@@ -703,6 +751,12 @@ fn norm_repr(s: &str) -> String {
     }
     out.push_str(rest);
     out
+}
+
+pub fn h_bytes(b: &[u8]) -> String {
+    use sha2::Digest;
+    let d = sha2::Sha256::digest(b);
+    d.iter().take(6).map(|x| format!("{:02x}", x)).collect()
 }
 
 fn h(s: String) -> String {
